@@ -13,6 +13,7 @@ import XzVerif.Model.XzWriter
 import XzVerif.Model.Select
 import XzVerif.Model.HashTable
 import XzVerif.Model.BinTree
+import XzVerif.Model.XzW
 /-
   driver — line protocol around the executable definitions of Spec and Model.
   One request per line on stdin, one reply line on stdout.  Core-only, so it links.
@@ -408,6 +409,15 @@ def handle (line : String) : String :=
       let t := (HT.Tab.new dc).write hist 0 hist.size
       ",".intercalate ((t.cands (unhex l)).map toString)
     | none => "bad-op"
+  -- xzwauto <matcher> <propsByte> <dictCap> <bufSize> <blockSize> <flags> W<hex>… → the stream of the Lean xz writer
+  | "xzwauto" :: mt :: pb :: dc :: bs :: blk :: fl :: calls =>
+    match pb.toNat?.bind Lzma2.propsOfByte, dc.toNat?, bs.toNat?, blk.toNat?, fl.toNat? with
+    | some p, some dc, some bs, some blk, some fl =>
+      let cfg : XzW.Cfg := { w2 := { props := p, dictCap := dc, bufSize := bs }, blockSize := blk, flags := fl }
+      let writes := calls.map (fun c => unhex (c.drop 1).toString)
+      if mt = "1" then hex (XzW.run cfg BT.BT4 (BT.St.new dc bs) writes)
+      else hex (XzW.run cfg HT.HT4 (HT.St.new dc bs) writes)
+    | _, _, _, _, _ => "bad-op"
   | ["lzmaops", h] =>
     let r := Lzma1.read 0 (unhex h)
     " ".intercalate (r.ops.toList.map opStr)
